@@ -34,15 +34,17 @@ package kex
 //@ spec macro suiteok(c) = encregistered(c.EncryptAlg) && (c.MacAlg == 0 || macregistered(c.MacAlg)) && (hsz(u(c.PRFHash)) == 32 || hsz(u(c.PRFHash)) == 48)
 
 //@ func kex.dhSymmetricKey
-//@   props C14 C10(sweep)
+//@   props C14 C05(functional) C02(functional) C10(sweep)
 //@   sweep bounds,panic,make,nilmem,nooverflow
 //@   requires @suite suiteok(cipher)
 //@   ensures @seklen err == nil ==> len(result0) == int(enckeysize(cipher.EncryptAlg))
 //@   ensures @svklen err == nil ==> len(result1) == ite(cipher.MacAlg != 0, int(mackeysize(cipher.MacAlg)), 0)
 //@   callassert KDF#1: @inputs arg0 == cipher.PRFHash && u(arg1) == u(shSe) && len(arg2) == 0
+//@   callsites KDF 1
+//@   callassert KDF#1: @secret BigOf(bytes(arg1)) == BigVal(u(secretInt))
 
 //@ func kex.ecdhSymmetricKey
-//@   props C14 C10(sweep)
+//@   props C14 C05(functional) C02(functional) C10(sweep)
 //@   sweep bounds,panic,make,nilmem,nooverflow
 //@   requires @suite suiteok(cipher)
 //@   ensures @seklen err == nil ==> len(sek) == int(enckeysize(cipher.EncryptAlg))
@@ -50,20 +52,72 @@ package kex
 //@   callassert KDF#1: @inputs arg0 == cipher.PRFHash && u(arg1) == u(shSe) && len(arg2) == 0
 
 //@ func kex.oaepSymmetricKey
-//@   props C14 C10(sweep)
+//@   props C14 C05(functional) C02(functional) C10(sweep)
 //@   sweep bounds,panic,make,nilmem,nooverflow
 //@   requires @suite suiteok(cipher)
 //@   requires @randlen len(ownerRandom) <= 65535
+//@   callsites KDF 1
+//@   callassert KDF#1: @inputs arg0 == cipher.PRFHash && u(arg1) == u(deviceRandom) && u(arg2) == u(ownerRandom)
 //@   ensures @seklen err == nil ==> len(result0) == int(enckeysize(cipher.EncryptAlg))
 //@   ensures @svklen err == nil ==> len(result1) == ite(cipher.MacAlg != 0, int(mackeysize(cipher.MacAlg)), 0)
 
 //@ func kex.ecdhParam.UnmarshalBinary
-//@   props C14 C10(sweep)
+//@   props C14 C10
 //@   sweep bounds,panic,make,nilmem
 //@   invariant loop#1: len(xb) <= 65535 && len(yb) <= 65535 && len(rb) <= 65535
+//@   callassert FillBytes#1: @fits ByteLenOf(BigVal(u(arg0))) <= len(arg1)
+//@   callassert FillBytes#2: @fits ByteLenOf(BigVal(u(arg0))) <= len(arg1)
 //@   ensures @lens err == nil ==> len(p.Pub) >= 1 && len(p.Pub) <= 131071 && len(p.Rand) <= 65535
 
 //@ func kex.ecdhParam.MarshalBinary
 //@   props C14
 //@   sweep bounds,make
 //@   requires @sec1 len(p.Pub) >= 1 && len(p.Pub) <= 131071 && len(p.Pub) % 2 == 1
+
+// ---- session persistence (C14): what is serialised is every field of the session, and
+// a restore assigns every field back (with the codec identity Dec(Enc(v)) = v,
+// ASSUMED, a restore between any two steps leaves the next step's inputs unchanged) ------
+//@ spec func SuiteOf(U) U
+//@ func kex.CipherSuiteID.Suite
+//@   nopaths
+//@   pure
+//@   ensures! u(result) == SuiteOf(u(id))
+
+//@ func kex.DHSession.MarshalCBOR
+//@   props C14 C10(sweep)
+//@   sweep bounds,panic,make
+//@   callsites Marshal 1
+//@   callassert Marshal#1: @all u(unwrap(arg0)) == u(persist)
+//@   callassert Marshal#1: @fields BigOf(bytes(persist.Prime)) == BigVal(u(s.p)) && persist.Generator == s.g && persist.ParamSize == s.paramSize && persist.Cipher == s.ID && u(persist.SEK) == u(s.SEK) && u(persist.SVK) == u(s.SVK)
+//@   callassert Marshal#1: @params imp(s.a != nil, BigOf(bytes(persist.ParamA)) == BigVal(u(s.a))) && imp(s.xA != nil, BigOf(bytes(persist.ParamXA)) == BigVal(u(s.xA))) && imp(s.b != nil, BigOf(bytes(persist.ParamB)) == BigVal(u(s.b))) && imp(s.xB != nil, BigOf(bytes(persist.ParamXB)) == BigVal(u(s.xB)))
+
+//@ func kex.DHSession.UnmarshalCBOR
+//@   props C14 C10(sweep)
+//@   sweep bounds,make
+//@   ensures @crypter ? err == nil ==> s.ID == persist.Cipher && u(s.Cipher) == SuiteOf(u(persist.Cipher)) && u(s.SEK) == u(persist.SEK) && u(s.SVK) == u(persist.SVK)
+//@   ensures @group ? err == nil ==> s.g == persist.Generator && s.paramSize == persist.ParamSize && s.p != nil && BigVal(u(s.p)) == BigOf(bytes(persist.Prime))
+//@   ensures @params ? err == nil ==> imp(len(persist.ParamA) > 0, s.a != nil && BigVal(u(s.a)) == BigOf(bytes(persist.ParamA))) && imp(len(persist.ParamXA) > 0, s.xA != nil && BigVal(u(s.xA)) == BigOf(bytes(persist.ParamXA))) && imp(len(persist.ParamB) > 0, s.b != nil && BigVal(u(s.b)) == BigOf(bytes(persist.ParamB))) && imp(len(persist.ParamXB) > 0, s.xB != nil && BigVal(u(s.xB)) == BigOf(bytes(persist.ParamXB)))
+
+//@ func kex.ECDHSession.MarshalCBOR
+//@   props C14 C10(sweep)
+//@   sweep bounds,panic,make
+//@   callsites Marshal 1
+//@   callassert Marshal#1: @all u(unwrap(arg0)) == tuple(s.randSize, s.xA, s.xB, keyBytes, s.ID, s.SEK, s.SVK)
+
+//@ func kex.ECDHSession.UnmarshalCBOR
+//@   props C14 C10(sweep)
+//@   sweep bounds,make
+//@   ensures @crypter ? err == nil ==> s.ID == persist.Cipher && u(s.Cipher) == SuiteOf(u(persist.Cipher)) && u(s.SEK) == u(persist.SEK) && u(s.SVK) == u(persist.SVK)
+//@   ensures @params ? err == nil ==> s.randSize == persist.RandSize && u(s.xA) == u(persist.ParamA) && u(s.xB) == u(persist.ParamB) && u(s.priv) == u(key)
+
+//@ func kex.OAEPSession.MarshalCBOR
+//@   props C14 C10(sweep)
+//@   sweep bounds,panic,make
+//@   callsites Marshal 1
+//@   callassert Marshal#1: @all u(unwrap(arg0)) == tuple(s.paramSize, s.xA, s.xB, s.ID, s.SEK, s.SVK)
+
+//@ func kex.OAEPSession.UnmarshalCBOR
+//@   props C14 C10(sweep)
+//@   sweep bounds,make
+//@   ensures @crypter ? err == nil ==> s.ID == persist.Cipher && u(s.Cipher) == SuiteOf(u(persist.Cipher)) && u(s.SEK) == u(persist.SEK) && u(s.SVK) == u(persist.SVK)
+//@   ensures @params ? err == nil ==> s.paramSize == persist.ParamSize && u(s.xA) == u(persist.ParamXA) && u(s.xB) == u(persist.ParamXB)
